@@ -277,7 +277,7 @@ def _expand(task):
         with common.time_limit(120):
             self_viol = list(self_viol) + list(sc.check_state(base))
         summary = sc.state_summary(base)
-    except Exception as e:  # noqa
+    except (Exception, common.Hang) as e:  # noqa
         import traceback
 
         self_viol = list(self_viol) + [
@@ -294,7 +294,7 @@ def _expand(task):
         try:
             with common.time_limit(60):
                 v = list(sc.apply(w, op))
-        except Exception as e:  # harness error: report loudly as violation
+        except (Exception, common.Hang) as e:  # report loudly as violation
             import traceback
 
             v = [("harness-error:" + type(e).__name__,
@@ -305,7 +305,7 @@ def _expand(task):
         try:
             with common.time_limit(60):
                 v += sc.check(w)
-        except Exception as e:  # noqa
+        except (Exception, common.Hang) as e:  # noqa
             import traceback
 
             v.append(("check-error:" + type(e).__name__,
